@@ -369,6 +369,24 @@ outcome run_seq(const std::vector<qop>& seq, stats* st) {
       default:
         break;
     }
+    // invariant after every step: every live wrapper equals its shadow raw
+    // pointer, every live span has the size and element sequence of its shadow
+    if (r.ok && o.k != PROBE_Q && o.k != PROBE_PAUSE) {
+      for (int k = 0; k < NSLOT && r.ok; ++k)
+        if (ms[k].alive && slot[k]->get() != ms[k].p) fail(i, "afterwards wrapper slot " + std::to_string(k) + " no longer equals its raw pointer");
+      for (int k = 0; k < NSPAN && r.ok; ++k) {
+        if (!msp[k].alive) continue;
+        if (msp[k].data == nullptr) continue;  // default / null / moved-from: size is unspecified by the statement
+        if (span[k]->size() != msp[k].len) {
+          fail(i, "afterwards span " + std::to_string(k) + " has size " + std::to_string(span[k]->size()) + ", the span it stands for has " + std::to_string(msp[k].len));
+          break;
+        }
+        std::size_t n = 0;
+        for (auto it = span[k]->begin(); it != span[k]->end(); ++it, ++n)
+          if (n >= msp[k].len || &*it != msp[k].data + n) break;
+        if (n != msp[k].len) fail(i, "afterwards span " + std::to_string(k) + " yields a different element sequence");
+      }
+    }
   }
   // clean up in an order that is fine for the model too
   for (auto& s : slot) s.reset();
@@ -398,6 +416,7 @@ std::vector<qop> gen_seq(vrng& r, unsigned maxlen) {
     o.a = static_cast<int>(r.below(NSLOT));
     o.b = static_cast<int>(r.below(NSLOT + 1));
     o.n = static_cast<int>(r.below(BUFLEN + 1));
+    if (o.k == SPAN_CTOR && r.chance(2, 3)) o.b = 0;  // several spans over one buffer (sub-spans sharing data())
     s.push_back(o);
     if (i % probe_every == probe_every - 1) {
       qop p;
@@ -477,6 +496,10 @@ int main(int argc, char** argv) {
       add(DESTROY, x, 0, 0);
     }
     add(SPAN_CTOR, 0, 0, 4);
+    add(SPAN_CTOR, 1, 0, 2);
+    add(SPAN_COPY_ASSIGN, 0, 1, 0);
+    add(SPAN_COPY_ASSIGN, 1, 0, 0);
+    add(SPAN_MOVE_ASSIGN, 0, 1, 0);
     add(SPAN_COPY, 1, 0, 0);
     add(SPAN_MOVE, 1, 0, 0);
     add(SPAN_DESTROY, 0, 0, 0);
